@@ -291,17 +291,21 @@ fn matrix_directed(kept: &Vec<(usize, usize)>, n: usize) -> Res {
     let x1 = g.add_node(());
     let mut ids = vec![];
     let mut mid = None;
-    for k in 0..n {
+    for k in 0..n - 1 {
         if k == 1 {
             mid = Some(g.add_node(()));
         }
         ids.push(g.add_node(()));
     }
+    g.add_edge(x0, x0, 50.0);
+    g.add_edge(x1, x1, 51.0);
+    g.add_edge(x0, ids[0], 52.0);
+    g.remove_node(x0);
+    g.remove_node(x1);
+    ids.push(g.add_node(()));
     for (k, &(a, b)) in kept.iter().enumerate() {
         g.add_edge(ids[a], ids[b], (k + 1) as f64);
     }
-    g.remove_node(x0);
-    g.remove_node(x1);
     if let Some(m) = mid {
         g.remove_node(m);
     }
@@ -309,6 +313,59 @@ fn matrix_directed(kept: &Vec<(usize, usize)>, n: usize) -> Res {
     let (g, ids) = (&g, &ids[..]);
     alg_directed_in!(r, "MatrixGraph+removed ids", g, ids, kept);
     r
+}
+
+/// Does a type claim compact node indices? If it does, `connected_components` accepts it and must then agree with Graph.
+/// (Method-resolution probe: the inherent-looking trait method on the value wins when its bounds hold, the one on the
+/// reference is the fallback. Works on concrete types only.)
+struct Probe<'a, G>(&'a G);
+trait ClaimsCompact {
+    fn cc(&self) -> Option<usize>;
+}
+impl<'a, G> ClaimsCompact for Probe<'a, G>
+where
+    &'a G: NodeCompactIndexable + IntoEdgeReferences,
+{
+    fn cc(&self) -> Option<usize> {
+        Some(connected_components(self.0))
+    }
+}
+trait NoClaim {
+    fn cc(&self) -> Option<usize>;
+}
+impl<'a, G> NoClaim for &Probe<'a, G> {
+    fn cc(&self) -> Option<usize> {
+        None
+    }
+}
+fn compact_claims(kept: &Vec<(usize, usize)>, n: usize, directed: bool) -> Vec<(&'static str, Option<usize>)> {
+    macro_rules! go {
+        ($ty:ty) => {{
+            let mut out = vec![];
+            let mut g: StableGraph<(), f64, $ty> = StableGraph::default();
+            let x0 = g.add_node(());
+            let ids: Vec<_> = (0..n).map(|_| g.add_node(())).collect();
+            for (k, &(a, b)) in kept.iter().enumerate() {
+                g.add_edge(ids[a], ids[b], (k + 1) as f64);
+            }
+            g.remove_node(x0);
+            out.push(("StableGraph+holes", (&Probe(&g)).cc()));
+            let mut m: MatrixGraph<(), f64, std::collections::hash_map::RandomState, $ty, Option<f64>, u16> = MatrixGraph::default();
+            let y0 = m.add_node(());
+            let mids: Vec<_> = (0..n).map(|_| m.add_node(())).collect();
+            for (k, &(a, b)) in kept.iter().enumerate() {
+                m.add_edge(mids[a], mids[b], (k + 1) as f64);
+            }
+            m.remove_node(y0);
+            out.push(("MatrixGraph+removed ids", (&Probe(&m)).cc()));
+            out
+        }};
+    }
+    if directed {
+        go!(Directed)
+    } else {
+        go!(Undirected)
+    }
 }
 
 impl PartC {
@@ -406,17 +463,23 @@ impl PartC {
             let x1 = g.add_node(());
             let mut ids = vec![];
             let mut mid = None;
-            for k in 0..n {
+            for k in 0..n - 1 {
                 if k == 1 {
                     mid = Some(g.add_node(()));
                 }
                 ids.push(g.add_node(()));
             }
+            // the removed ids carried a self-loop and edges of their own; the last live node is created afterwards
+            // and takes over one of the removed ids: it must start without edges
+            g.add_edge(x0, x0, 50.0);
+            g.add_edge(x1, x1, 51.0);
+            g.add_edge(x0, ids[0], 52.0);
+            g.remove_node(x0);
+            g.remove_node(x1); // two adjacent removed ids
+            ids.push(g.add_node(()));
             for (k, &(a, b)) in kept.iter().enumerate() {
                 g.add_edge(ids[a], ids[b], w(k));
             }
-            g.remove_node(x0);
-            g.remove_node(x1); // two adjacent removed ids
             if let Some(m) = mid {
                 g.remove_node(m);
             }
@@ -517,6 +580,14 @@ impl PartC {
             alg_cc!(r, h, g, ids, 0);
             alg_floyd!(r, h, g, ids);
             out.push((h, r));
+        }
+        // types that do not promise compact indices are not given to connected_components — unless they start to claim it
+        for (h, c) in compact_claims(kept, n, directed) {
+            if let Some(c) = c {
+                if let Some(slot) = out.iter_mut().find(|x| x.0 == h) {
+                    slot.1.insert("connected_components", format!("{:?}", c));
+                }
+            }
         }
         out
     }
